@@ -24,13 +24,13 @@ import (
 	"github.com/tinode/chat/server/store/types"
 )
 
-type dScn struct {
+type c08dScn struct {
 	*vScn
 	root map[int]bool
 }
 
 // content tokens: 0 = null, 1 = the string "␡", n >= 2 = the JSON number n
-func dTokJSON(tok string) string {
+func c08dTokJSON(tok string) string {
 	switch tok {
 	case "0":
 		return "null"
@@ -40,7 +40,7 @@ func dTokJSON(tok string) string {
 	return tok
 }
 
-func dTokVal(tok string) any {
+func c08dTokVal(tok string) any {
 	switch tok {
 	case "0":
 		return nil
@@ -51,7 +51,7 @@ func dTokVal(tok string) any {
 	return float64(n)
 }
 
-func dTokOf(v any) string {
+func c08dTokOf(v any) string {
 	switch x := v.(type) {
 	case nil:
 		return "0"
@@ -69,10 +69,10 @@ func dTokOf(v any) string {
 }
 
 // tag tokens, see tag_norm in coq/Sys/TopicDesc.v
-func dTagSpell(t int) string {
+func c08dTagSpell(t int) string {
 	switch {
 	case t >= 100:
-		return " " + strings.ToUpper(dTagSpell(t-100)) + " "
+		return " " + strings.ToUpper(c08dTagSpell(t-100)) + " "
 	case t == 0:
 		return nullValue
 	case t == 1:
@@ -83,7 +83,7 @@ func dTagSpell(t int) string {
 	return fmt.Sprintf("t%02d", t)
 }
 
-func dTagTok(s string) string {
+func c08dTagTok(s string) string {
 	switch {
 	case s == nullValue:
 		return "0"
@@ -103,30 +103,30 @@ func dTagTok(s string) string {
 	return "?" + s
 }
 
-func dTagList(csv string) []string {
+func c08dTagList(csv string) []string {
 	res := []string{}
 	if csv == "-" || csv == "" {
 		return res
 	}
 	for _, p := range strings.Split(csv, ",") {
 		n, _ := strconv.Atoi(p)
-		res = append(res, dTagSpell(n))
+		res = append(res, c08dTagSpell(n))
 	}
 	return res
 }
 
-func dTagsStr(tags []string) string {
+func c08dTagsStr(tags []string) string {
 	if len(tags) == 0 {
 		return "-"
 	}
 	var ts []string
 	for _, s := range tags {
-		ts = append(ts, dTagTok(s))
+		ts = append(ts, c08dTagTok(s))
 	}
 	return strings.Join(ts, ",")
 }
 
-func dModeArg(a string) string {
+func c08dModeArg(a string) string {
 	switch a {
 	case "-":
 		return ""
@@ -137,7 +137,7 @@ func dModeArg(a string) string {
 	return types.AccessMode(n).String()
 }
 
-func (sc *dScn) frame(m *ServerComMessage) string {
+func (sc *c08dScn) frame(m *ServerComMessage) string {
 	switch {
 	case m.Ctrl != nil:
 		res := "ctrl " + strconv.Itoa(m.Ctrl.Code)
@@ -168,16 +168,16 @@ func (sc *dScn) frame(m *ServerComMessage) string {
 			defacs = d.DefaultAcs.Auth + "/" + d.DefaultAcs.Anon
 		}
 		return fmt.Sprintf("desc acs=%s mode=%s defacs=%s pub=%s tru=%s priv=%s", acs, mode, defacs,
-			dTokOf(d.Public), dTokOf(d.Trusted), dTokOf(d.Private))
+			c08dTokOf(d.Public), c08dTokOf(d.Trusted), c08dTokOf(d.Private))
 	case m.Meta != nil && m.Meta.Tags != nil:
-		return "tags " + dTagsStr(m.Meta.Tags)
+		return "tags " + c08dTagsStr(m.Meta.Tags)
 	case m.Pres != nil:
 		return "pres what=" + m.Pres.What
 	}
 	return sc.vScn.frame(m)
 }
 
-func (sc *dScn) emitFrames() {
+func (sc *c08dScn) emitFrames() {
 	for {
 		select {
 		case <-globals.usersUpdate:
@@ -198,31 +198,31 @@ func (sc *dScn) emitFrames() {
 	}
 }
 
-func (sc *dScn) emitStore() {
+func (sc *c08dScn) emitStore() {
 	d := memverif.DumpTopicDesc(sc.topic)
 	if !d.Exists {
 		fmt.Fprintf(sc.out, "store topic absent\n")
 		return
 	}
 	fmt.Fprintf(sc.out, "store topic auth=%s anon=%s pub=%s tru=%s tags=%s owner=%d\n", vModeStr(d.Auth), vModeStr(d.Anon),
-		dTokOf(d.Public), dTokOf(d.Trusted), dTagsStr(d.Tags), sc.uidIdx[d.Owner])
-	fmt.Fprintf(sc.out, "store tagidx %s\n", dTagsStr(d.TagIdx))
+		c08dTokOf(d.Public), c08dTokOf(d.Trusted), c08dTagsStr(d.Tags), sc.uidIdx[d.Owner])
+	fmt.Fprintf(sc.out, "store tagidx %s\n", c08dTagsStr(d.TagIdx))
 	for i, s := range d.Subs {
 		fmt.Fprintf(sc.out, "store sub %02d user=%d %s/%s priv=%s deleted=%s\n", i, sc.uidIdx[s.User], vModeStr(s.Want), vModeStr(s.Given),
-			dTokOf(s.Private), vB2s(s.Deleted))
+			c08dTokOf(s.Private), vB2s(s.Deleted))
 	}
 }
 
-func (sc *dScn) emitCache() {
+func (sc *c08dScn) emitCache() {
 	t := globals.hub.topicGet(sc.topic)
 	if t == nil {
 		return
 	}
 	fmt.Fprintf(sc.out, "cache topic auth=%s anon=%s pub=%s tru=%s tags=%s owner=%d\n", vModeStr(t.accessAuth), vModeStr(t.accessAnon),
-		dTokOf(t.public), dTokOf(t.trusted), dTagsStr(t.tags), sc.uidIdx[t.owner])
+		c08dTokOf(t.public), c08dTokOf(t.trusted), c08dTagsStr(t.tags), sc.uidIdx[t.owner])
 	var lines []string
 	for uid, p := range t.perUser {
-		lines = append(lines, fmt.Sprintf("cache user %d %s/%s priv=%s", sc.uidIdx[uid], vModeStr(p.modeWant), vModeStr(p.modeGiven), dTokOf(p.private)))
+		lines = append(lines, fmt.Sprintf("cache user %d %s/%s priv=%s", sc.uidIdx[uid], vModeStr(p.modeWant), vModeStr(p.modeGiven), c08dTokOf(p.private)))
 	}
 	sort.Strings(lines)
 	var sl []string
@@ -239,14 +239,14 @@ func (sc *dScn) emitCache() {
 	}
 }
 
-func (sc *dScn) lvl(i int) auth.Level {
+func (sc *c08dScn) lvl(i int) auth.Level {
 	if sc.root[i] {
 		return auth.LevelRoot
 	}
 	return auth.LevelAuth
 }
 
-func (sc *dScn) restart() {
+func (sc *c08dScn) restart() {
 	for _, vs := range sc.sess {
 		vs.s.cleanUp(true)
 		<-vs.done
@@ -261,7 +261,7 @@ func (sc *dScn) restart() {
 	}
 }
 
-func (sc *dScn) op(w []string) {
+func (sc *c08dScn) op(w []string) {
 	sc.opi++
 	fmt.Fprintf(sc.out, "op %d\n", sc.opi)
 	flt, kind, a := w[0], w[1], w[2:]
@@ -278,7 +278,7 @@ func (sc *dScn) op(w []string) {
 	case "sub":
 		set := ""
 		if a[1] != "0" {
-			set = `,"set":{"desc":{"private":` + dTokJSON(a[1]) + `}}`
+			set = `,"set":{"desc":{"private":` + c08dTokJSON(a[1]) + `}}`
 		}
 		sc.send(at(0), `{"sub":{"id":"`+id+`","topic":"`+tn+`"`+set+`}}`)
 	case "leave":
@@ -292,22 +292,22 @@ func (sc *dScn) op(w []string) {
 		if a[1] != "-" {
 			p := strings.Split(a[1], ":")
 			var df []string
-			if s := dModeArg(p[0]); s != "" {
+			if s := c08dModeArg(p[0]); s != "" {
 				df = append(df, `"auth":`+vJSON(s))
 			}
-			if s := dModeArg(p[1]); s != "" {
+			if s := c08dModeArg(p[1]); s != "" {
 				df = append(df, `"anon":`+vJSON(s))
 			}
 			fields = append(fields, `"defacs":{`+strings.Join(df, ",")+`}`)
 		}
 		for i, nm := range []string{"public", "trusted", "private"} {
 			if a[2+i] != "0" {
-				fields = append(fields, `"`+nm+`":`+dTokJSON(a[2+i]))
+				fields = append(fields, `"`+nm+`":`+c08dTokJSON(a[2+i]))
 			}
 		}
 		sc.send(at(0), `{"set":{"id":"`+id+`","topic":"`+tn+`","desc":{`+strings.Join(fields, ",")+`}}}`)
 	case "settags":
-		sc.send(at(0), `{"set":{"id":"`+id+`","topic":"`+tn+`","tags":`+vJSON(dTagList(a[1]))+`}}`)
+		sc.send(at(0), `{"set":{"id":"`+id+`","topic":"`+tn+`","tags":`+vJSON(c08dTagList(a[1]))+`}}`)
 	case "getdesc":
 		sc.send(at(0), `{"get":{"id":"`+id+`","topic":"`+tn+`","what":"desc"}}`)
 	case "gettags":
@@ -364,7 +364,7 @@ func TestVerifC08Desc(t *testing.T) {
 	defer out.Flush()
 	in := bufio.NewScanner(fin)
 	in.Buffer(make([]byte, 1<<20), 1<<26)
-	var sc *dScn
+	var sc *c08dScn
 	scnCount := 0
 	for in.Scan() {
 		w := strings.Fields(in.Text())
@@ -375,7 +375,7 @@ func TestVerifC08Desc(t *testing.T) {
 		case "scn":
 			scnCount++
 			kv := vKV(w[2:])
-			sc = &dScn{vScn: &vScn{id: w[1], uids: map[int]types.Uid{}, uidIdx: map[types.Uid]int{}, sess: map[int]*vSess{},
+			sc = &c08dScn{vScn: &vScn{id: w[1], uids: map[int]types.Uid{}, uidIdx: map[types.Uid]int{}, sess: map[int]*vSess{},
 				sessUser: map[int]int{}, out: out}, root: map[int]bool{}}
 			sc.topic = "grpVerifD" + strconv.Itoa(scnCount) + "x" + strconv.FormatInt(time.Now().UnixNano()%1000000, 36)
 			sc.gen = scnCount
@@ -384,10 +384,10 @@ func TestVerifC08Desc(t *testing.T) {
 			stopic := &types.Topic{
 				ObjHeader: types.ObjHeader{Id: sc.topic, CreatedAt: types.TimeNow()},
 				Access:    types.DefaultAccess{Auth: types.AccessMode(authM), Anon: types.AccessMode(anonM)},
-				Public:    dTokVal(kv["pub"]),
-				Trusted:   dTokVal(kv["tru"]),
+				Public:    c08dTokVal(kv["pub"]),
+				Trusted:   c08dTokVal(kv["tru"]),
 			}
-			if tl := dTagList(kv["tags"]); len(tl) > 0 {
+			if tl := c08dTagList(kv["tags"]); len(tl) > 0 {
 				stopic.Tags = tl
 			}
 			if err := store.Topics.Create(stopic, types.ZeroUid, nil); err != nil {
@@ -410,7 +410,7 @@ func TestVerifC08Desc(t *testing.T) {
 			want, _ := strconv.Atoi(kv["want"])
 			given, _ := strconv.Atoi(kv["given"])
 			if err := store.Subs.Create(&types.Subscription{User: sc.uids[i].String(), Topic: sc.topic,
-				ModeWant: types.AccessMode(want), ModeGiven: types.AccessMode(given), Private: dTokVal(kv["priv"])}); err != nil {
+				ModeWant: types.AccessMode(want), ModeGiven: types.AccessMode(given), Private: c08dTokVal(kv["priv"])}); err != nil {
 				t.Fatal("sub create: ", err)
 			}
 			if kv["deleted"] == "1" {
